@@ -100,6 +100,11 @@ func runOp(t *trie.HashTrie, o Sx) (ob Sx) {
 				ob = List(Bool(t.Contains(s)), Bool(t.ExactMatch(s)), sxRunes([]rune(t.Filter(s))))
 			case 9:
 				ob = List(Bool(t.VerifHas(o.At(1).AsString())))
+			case 10:
+				t.AddWord(string(runesOf(o.At(1))))
+				ob = List()
+			case 11:
+				ob = List(Bool(t.Remove(string(runesOf(o.At(1))))))
 			default:
 				ob = Ints(-9)
 			}
@@ -444,6 +449,14 @@ func gen(a Args, out *Out) {
 			}
 		}
 		pool := g.pool(rng.Range(2, 9))
+		if rng.Chance(1, 12) { // a long word and a long prefix of it
+			var lw []rune
+			for len(lw) < 40 {
+				lw = append(lw, g.word(5)...)
+			}
+			pool = append(pool, lw, lw[:37])
+			out.Count("long-words")
+		}
 		phased := false
 		if kind == "wildcard" {
 			if rng.Bool() { // a sub-pool whose literal and wildcard branches never compete
@@ -463,6 +476,13 @@ func gen(a Args, out *Out) {
 			}
 		}
 		cur := map[string]bool{}
+		quietMut := rng.Chance(1, 3) // mutators mostly without a WordsCount() call afterwards
+		mut := func(code int) int64 {
+			if quietMut && rng.Chance(3, 4) {
+				return int64(code + 10)
+			}
+			return int64(code)
+		}
 		var ops []Sx
 		probeAll := func() {
 			for _, w := range pool {
@@ -486,7 +506,7 @@ func gen(a Args, out *Out) {
 					}
 				}
 				cur[string(w)] = true
-				ops = append(ops, List(Int(0), sxRunes(w)))
+				ops = append(ops, List(Int(mut(0)), sxRunes(w)))
 				out.Count("op:add")
 			case r < 58:
 				w := pool[rng.Intn(len(pool))]
@@ -500,7 +520,7 @@ func gen(a Args, out *Out) {
 						}
 					}
 				}
-				ops = append(ops, List(Int(1), sxRunes(w)))
+				ops = append(ops, List(Int(mut(1)), sxRunes(w)))
 				delete(cur, string(w))
 				out.Count("op:remove")
 				removes++
